@@ -29,6 +29,8 @@ Txt(str) == CASE str = "epoch" -> <<101,112,111,99,104>> [] str = "post" -> <<11
               [] str = "a" -> <<97>> [] str = "b" -> <<98>>
 
 \* the timestamp used by ts(...): the bumped one, else the last (tag) one
+\* recorded instants carry their civil fields; the closed form of Calendar.tla must confirm them
+InstantsOk(st) == (HasInstant(st.bts) => ValidCivil(st.bts.c)) /\ (HasInstant(st.lts) => ValidCivil(st.lts.c))
 TsOf(st) == IF HasInstant(st.bts) THEN st.bts ELSE st.lts
 \* decimal seconds of an instant (day * 86400 + sod exceeds 2^31 after 2038, so text arithmetic:
 \* the harness supplies the instants; the model only needs their printed seconds)
